@@ -52,9 +52,9 @@ theorem filter_key_singleton {β κ : Type} [DecidableEq κ] (key : β → κ) (
         rw [List.filter_eq_nil_iff]; intro x hx
         simp only [beq_iff_eq]
         exact fun h => hl.1 (key x) (List.mem_map.mpr ⟨x, hx, rfl⟩) h.symm
-      simp [List.filter_cons, this]
+      simp [this]
     · have hne : key b ≠ key a := hl.1 (key a) (List.mem_map.mpr ⟨a, hmem, rfl⟩)
-      simp [List.filter_cons, hne, ih hl.2 hmem]
+      simp [hne, ih hl.2 hmem]
 
 /-- Exactly one element of a `filterMap` over a duplicate-free list satisfies `q`, if exactly one source does. -/
 theorem filter_filterMap_length_one {β γ : Type} (L : List β) (hL : L.Nodup) (f : β → Option γ) (q : γ → Bool)
@@ -72,7 +72,7 @@ theorem filter_filterMap_length_one {β γ : Type} (L : List β) (hL : L.Nodup) 
         obtain ⟨a', ha', hfa'⟩ := List.mem_filterMap.mp hy
         have hne : a' ≠ a := fun h => hL.1 (h ▸ ha')
         simp [hother a' (List.mem_cons_of_mem _ ha') hne y hfa']
-      simp [List.filterMap_cons, hfa, List.filter_cons, hq, hrest]
+      simp [hfa, hq, hrest]
     · have hne : x ≠ a := fun h => hL.1 (h ▸ hmem)
       have ih' := ih hL.2 hmem (fun a' ha' => hother a' (List.mem_cons_of_mem _ ha'))
       cases hfx : f x with
